@@ -54,6 +54,8 @@ def gen_cases(tier, seed):
     add(mol="hubbard", lattice="chain4", u=4.0, mf="rhf", nelec=[2, 2], trial="rhf", wt="uhf", chol_cut=1e-8, fci=True)
     add(mol="hubbard", lattice="grid2x2", u=2.0, mf="uhf", nelec=[2, 1], trial="uhf", wt="uhf", chol_cut=1e-8, fci=True)
     add(mol="h4", basis="sto-3g", mf="rhf", trial="rhf", wt="rhf", ladder=True)
+    add(mol="lih", basis="sto-3g", mf="rhf", trial="rhf", wt="rhf", fci=True, sequence=[[0, False], [1, False], [1, True], [0, False]])
+    add(mol="oh", basis="sto-3g", mf="rohf", trial="uhf", wt="uhf", fci=True, sequence=[[0, False], [1, False], [0, False]])
     if not q:
         for rep in range(70):
             mol = str(rng.choice(["h2", "h4", "h4ring", "lih", "oh"]))
@@ -140,10 +142,28 @@ def run_case(case):
     rng = np.random.default_rng(case["s"])
     events = []
     cnt = {"prep_calls": 0, "mf_energy_checks": 0, "fci_checks": 0, "cc_checks": 0, "skipped_unconverged": 0}
-    mol, mf, integrals = _build_mf(case, rng)
+    mol, mf, integrals = case.pop("_prebuilt") if "_prebuilt" in case else _build_mf(case, rng)
     if not mf.converged:
         cnt["skipped_unconverged"] = 1
         return {"events": [ev("scf/not-converged", None, key="C16/skip-scf")], "nontrivial": False, "counters": cnt}
+    if case.get("sequence"):
+        # several preparations of the same molecule / threshold in ONE process: each must be as good as a first call
+        out_events, last = [], None
+        for si, (fz, use_cc) in enumerate(case["sequence"]):
+            sub = dict(case)
+            sub.pop("sequence")
+            sub["frozen"] = fz
+            sub["cc"] = use_cc
+            sub["trial"] = ("cisd" if case["mf"] == "rhf" else "ucisd") if use_cc else case["trial"]
+            sub["_prebuilt"] = (mol, mf, integrals)
+            r = run_case(sub)
+            for e in r["events"]:
+                e["key"] = e["key"] + "/call-%d-in-process" % (si + 1 if si < 1 else 2)
+                out_events.append(e)
+            for k_, v_ in r["counters"].items():
+                cnt[k_] = cnt.get(k_, 0) + v_
+            last = r
+        return {"events": out_events, "nontrivial": True, "sample": dict(last.get("sample") or {}, sequence=case["sequence"]), "counters": cnt}
     frozen = int(case.get("frozen", 0))
     key = "C16/%s/%s%s%s%s" % (case["mol"] if case["mol"] != "hubbard" else "custom-integrals", case["mf"], "/frozen" if frozen else "",
                                "/custom-basis" if case.get("custom_basis") else "", "/df" if case.get("df") else "")
